@@ -100,44 +100,92 @@ func managedTxnShape(r *Repo, fd *ast.FuncDecl) managedShape {
 			if !ok {
 				continue
 			}
-			for _, bs := range fl.Body.List {
-				switch x := bs.(type) {
-				case *ast.IfStmt:
-					// if p := recover(); p != nil { … }
-					as, ok := x.Init.(*ast.AssignStmt)
+			// the deferred function is evaluated for the two ways it can be entered - a panic is in flight (recover() != nil)
+			// or not - instead of being matched against one wording
+			ev := func(panicking bool) (recovers, aborted, repanicked bool) {
+				pvars := map[string]bool{}
+				done := false
+				var run func(list []ast.Stmt)
+				isRecoverAssign := func(st ast.Stmt) (string, bool) {
+					as, ok := st.(*ast.AssignStmt)
 					if !ok || len(as.Lhs) != 1 || len(as.Rhs) != 1 {
-						continue
+						return "", false
 					}
 					if _, ok := isCall(as.Rhs[0], "", "recover"); !ok {
-						continue
+						return "", false
 					}
-					pv := r.Text(as.Lhs[0])
-					if strings.ReplaceAll(r.Text(x.Cond), " ", "") != pv+"!=nil" || x.Else != nil {
-						continue
-					}
-					m.recovers = true
-					aborted := false
-					for _, ps := range x.Body.List {
-						if isAbortStmt(ps) {
-							aborted = true
-							m.abortOnPanic = true
+					return r.Text(as.Lhs[0]), true
+				}
+				// cond: 1 true, 0 false, -1 unknown
+				cond := func(e ast.Expr) int {
+					t := strings.ReplaceAll(r.Text(e), " ", "")
+					for v := range pvars {
+						if t == v+"!=nil" || t == "nil!="+v {
+							if panicking {
+								return 1
+							}
+							return 0
 						}
-						if es, ok := ps.(*ast.ExprStmt); ok {
-							if ce, ok := isCall(es.X, "", "panic"); ok && len(ce.Args) == 1 && r.Text(ce.Args[0]) == pv {
-								// the abort must come before the re-panic to be executed
-								m.repanics = true
-								if !aborted {
-									m.abortOnPanic = false
+						if t == v+"==nil" || t == "nil=="+v {
+							if panicking {
+								return 0
+							}
+							return 1
+						}
+					}
+					return -1
+				}
+				run = func(list []ast.Stmt) {
+					for _, st := range list {
+						if done {
+							return
+						}
+						if v, ok := isRecoverAssign(st); ok {
+							pvars[v] = true
+							recovers = true
+							continue
+						}
+						switch x := st.(type) {
+						case *ast.IfStmt:
+							if x.Init != nil {
+								if v, ok := isRecoverAssign(x.Init); ok {
+									pvars[v] = true
+									recovers = true
 								}
 							}
+							switch cond(x.Cond) {
+							case 1:
+								run(x.Body.List)
+							case 0:
+								switch el := x.Else.(type) {
+								case *ast.BlockStmt:
+									run(el.List)
+								case *ast.IfStmt:
+									run([]ast.Stmt{el})
+								}
+							}
+						case *ast.ExprStmt:
+							if isAbortStmt(x) {
+								aborted = true
+							}
+							if ce, ok := isCall(x.X, "", "panic"); ok && len(ce.Args) == 1 && pvars[r.Text(ce.Args[0])] {
+								repanicked = true
+								done = true
+							}
+						case *ast.BlockStmt:
+							run(x.List)
 						}
 					}
-				case *ast.ExprStmt:
-					if isAbortStmt(x) {
-						m.abortOnNormal = true
-					}
 				}
+				run(fl.Body.List)
+				return
 			}
+			rec1, abortedP, repanicked := ev(true)
+			_, abortedN, _ := ev(false)
+			m.recovers = rec1
+			m.abortOnPanic = rec1 && abortedP
+			m.repanics = repanicked
+			m.abortOnNormal = abortedN
 		}
 		if fnIdx < 0 && strings.Contains(r.Text(st), "fn(txn)") {
 			fnIdx = i
